@@ -478,7 +478,7 @@ def run(args):
              "probes_with_forall_when_fired": 0, "probes_with_forall_when_not_fired": 0,
              "forall_when_instances_fired": 0, "forall_when_instances_not_fired": 0,
              "probes_with_numeric_applied": 0, "numeric_effects_applied": 0, "discrete_effects_applied": 0,
-             "d40_class_probes": 0, "features": {}, "compact_worlds": 0, "compact_fallback_full": 0}
+             "d40_class_probes": 0, "void_probes_problem_not_read": 0, "features": {}, "compact_worlds": 0, "compact_fallback_full": 0}
     orders_seen = set()
     base_worlds = worlds
     for hs in hashseeds:
@@ -490,6 +490,13 @@ def run(args):
         for b0 in range(0, len(all_worlds), BATCH):
             worlds = all_worlds[b0:b0 + BATCH]
             results = run_worlds(worlds, hs)
+            # a probe whose (re-rendered) problem text the library refuses to read is void: it says nothing about apply
+            for wd, res in zip(worlds, results):
+                if "probes" in res and any("problem_raised" in r for r in res["probes"]):
+                    ok = [i for i, r in enumerate(res["probes"]) if "problem_raised" not in r]
+                    stats["void_probes_problem_not_read"] += len(res["probes"]) - len(ok)
+                    wd["probes"] = [wd["probes"][i] for i in ok]
+                    res["probes"] = [res["probes"][i] for i in ok]
             lits, units, keep = [], [], []
             for wi, (wd, res) in enumerate(zip(worlds, results)):
                 if "probes" not in res:
